@@ -10,6 +10,9 @@ mod gen;
 mod maggen;
 mod magpipe;
 mod pipeline;
+mod s13;
+mod s5;
+mod s6;
 mod stages;
 mod tables;
 mod util;
@@ -69,6 +72,8 @@ fn main() {
             let handled = handled || c19::dispatch(&args, seed);
             let handled = handled || c20::dispatch(&args, seed);
             let handled = handled || magpipe::dispatch(&args, seed);
+            let handled = handled || s5::dispatch(&args, seed);
+            let handled = handled || s6::dispatch(&args, seed);
             if !handled {
                 eprintln!("unknown command {}", other);
                 std::process::exit(2);
